@@ -17,7 +17,11 @@
    ArbiterFix = FALSE models the code before fix 7102364 (terminals do not take fn_next first) and shows the violation. *)
 EXTENDS Integers, Sequences, FiniteSets, TLC
 CONSTANTS NThreads, MaxCalls,   \* TLC explores every assignment of scripts of 1..MaxCalls calls to NThreads threads
-          ArbiterFix
+          ArbiterFix,
+          WithFinalize            \* TRUE: also the tail StreamController::finalize() of every path but a delivered next
+                                  \* (is_subscribed() again; if still subscribed, Observer::unsubscribe()).  It only reads
+                                  \* in every reachable state, so the invariants do not depend on it; the lock-level trace
+                                  \* validation (SinkConcTrace) needs it to follow the code step by step.
 
 Threads == 1..NThreads
 Calls == {"next", "error", "complete", "unsub"}
@@ -38,38 +42,47 @@ Cur(t) == Scripts[t][ip[t]]
 Log(kind, t) == hist' = Append(hist, [k |-> kind, t |-> t, i |-> ip[t]])
 Goto(t, l) == pc' = [pc EXCEPT ![t] = l]
 Done(t) == /\ pc' = [pc EXCEPT ![t] = "idle"] /\ ip' = [ip EXCEPT ![t] = @ + 1]
+Fin == IF WithFinalize THEN "f1" ELSE "ret"
 
 \* start of a call: the controller's is_subscribed() check = three separate slot reads (sink_* only; unsubscribe has none)
 Start(t) == /\ pc[t] = "idle" /\ ip[t] <= Len(Scripts[t])
             /\ Log("call:" \o Cur(t), t)
             /\ Goto(t, IF Cur(t) = "unsub" THEN "u1" ELSE "chkN")
             /\ UNCHANGED <<slotN, slotE, slotC, ip, got, clock>>
-ChkN(t) == /\ pc[t] = "chkN" /\ (IF slotN THEN Goto(t, "chkE") ELSE Goto(t, "ret")) /\ UNCHANGED <<slotN, slotE, slotC, ip, got, hist, clock>>
-ChkE(t) == /\ pc[t] = "chkE" /\ (IF slotE THEN Goto(t, "chkC") ELSE Goto(t, "ret")) /\ UNCHANGED <<slotN, slotE, slotC, ip, got, hist, clock>>
+ChkN(t) == /\ pc[t] = "chkN" /\ (IF slotN THEN Goto(t, "chkE") ELSE Goto(t, Fin)) /\ UNCHANGED <<slotN, slotE, slotC, ip, got, hist, clock>>
+ChkE(t) == /\ pc[t] = "chkE" /\ (IF slotE THEN Goto(t, "chkC") ELSE Goto(t, Fin)) /\ UNCHANGED <<slotN, slotE, slotC, ip, got, hist, clock>>
 ChkC(t) == /\ pc[t] = "chkC"
-           /\ (IF ~slotC THEN Goto(t, "ret")
+           /\ (IF ~slotC THEN Goto(t, Fin)
                ELSE Goto(t, CASE Cur(t) = "next" -> "n1" [] Cur(t) = "error" -> (IF ArbiterFix THEN "e0" ELSE "e1") [] OTHER -> (IF ArbiterFix THEN "c0" ELSE "c1")))
            /\ UNCHANGED <<slotN, slotE, slotC, ip, got, hist, clock>>
 \* Observer::next
 N1(t) == /\ pc[t] = "n1" /\ got' = [got EXCEPT ![t] = slotN] /\ Goto(t, "n2") /\ UNCHANGED <<slotN, slotE, slotC, ip, hist, clock>>
 N2(t) == /\ pc[t] = "n2" /\ (IF got[t] THEN Log("cb:n", t) ELSE UNCHANGED hist) /\ Goto(t, "ret") /\ UNCHANGED <<slotN, slotE, slotC, ip, got, clock>>
 \* Observer::error
-E0(t) == /\ pc[t] = "e0" /\ slotN' = FALSE /\ (IF slotN THEN Goto(t, "e1") ELSE Goto(t, "ret")) /\ UNCHANGED <<slotE, slotC, ip, got, hist, clock>>
+E0(t) == /\ pc[t] = "e0" /\ slotN' = FALSE /\ (IF slotN THEN Goto(t, "e1") ELSE Goto(t, Fin)) /\ UNCHANGED <<slotE, slotC, ip, got, hist, clock>>
 E1(t) == /\ pc[t] = "e1" /\ slotC' = (IF ArbiterFix THEN FALSE ELSE slotC) /\ Goto(t, "e2") /\ UNCHANGED <<slotN, slotE, ip, got, hist, clock>>
 E2(t) == /\ pc[t] = "e2" /\ got' = [got EXCEPT ![t] = slotE] /\ slotE' = FALSE /\ Goto(t, "e3") /\ UNCHANGED <<slotN, slotC, ip, hist, clock>>
-E3(t) == /\ pc[t] = "e3" /\ (IF got[t] THEN Log("cb:e", t) ELSE UNCHANGED hist) /\ Goto(t, "ret") /\ UNCHANGED <<slotN, slotE, slotC, ip, got, clock>>
+E3(t) == /\ pc[t] = "e3" /\ (IF got[t] THEN Log("cb:e", t) ELSE UNCHANGED hist) /\ Goto(t, Fin) /\ UNCHANGED <<slotN, slotE, slotC, ip, got, clock>>
 \* Observer::complete
-C0(t) == /\ pc[t] = "c0" /\ slotN' = FALSE /\ (IF slotN THEN Goto(t, "c1") ELSE Goto(t, "ret")) /\ UNCHANGED <<slotE, slotC, ip, got, hist, clock>>
+C0(t) == /\ pc[t] = "c0" /\ slotN' = FALSE /\ (IF slotN THEN Goto(t, "c1") ELSE Goto(t, Fin)) /\ UNCHANGED <<slotE, slotC, ip, got, hist, clock>>
 C1(t) == /\ pc[t] = "c1" /\ slotE' = (IF ArbiterFix THEN FALSE ELSE slotE) /\ Goto(t, "c2") /\ UNCHANGED <<slotN, slotC, ip, got, hist, clock>>
 C2(t) == /\ pc[t] = "c2" /\ got' = [got EXCEPT ![t] = slotC] /\ slotC' = FALSE /\ Goto(t, "c3") /\ UNCHANGED <<slotN, slotE, ip, hist, clock>>
-C3(t) == /\ pc[t] = "c3" /\ (IF got[t] THEN Log("cb:c", t) ELSE UNCHANGED hist) /\ Goto(t, "ret") /\ UNCHANGED <<slotN, slotE, slotC, ip, got, clock>>
+C3(t) == /\ pc[t] = "c3" /\ (IF got[t] THEN Log("cb:c", t) ELSE UNCHANGED hist) /\ Goto(t, Fin) /\ UNCHANGED <<slotN, slotE, slotC, ip, got, clock>>
 \* Observer::unsubscribe
 U1(t) == /\ pc[t] = "u1" /\ slotN' = FALSE /\ Goto(t, "u2") /\ UNCHANGED <<slotE, slotC, ip, got, hist, clock>>
 U2(t) == /\ pc[t] = "u2" /\ slotE' = FALSE /\ Goto(t, "u3") /\ UNCHANGED <<slotN, slotC, ip, got, hist, clock>>
-U3(t) == /\ pc[t] = "u3" /\ slotC' = FALSE /\ Goto(t, "ret") /\ UNCHANGED <<slotN, slotE, ip, got, hist, clock>>
+U3(t) == /\ pc[t] = "u3" /\ slotC' = FALSE /\ Goto(t, Fin) /\ UNCHANGED <<slotN, slotE, ip, got, hist, clock>>
+\* StreamController::finalize(): is_subscribed() (reads stop at the first empty slot); if all three are present,
+\* Observer::unsubscribe() (whose hook is finalize() again: the second round finds the next slot empty)
+F1(t) == /\ pc[t] = "f1" /\ (IF slotN THEN Goto(t, "f2") ELSE Goto(t, "ret")) /\ UNCHANGED <<slotN, slotE, slotC, ip, got, hist, clock>>
+F2(t) == /\ pc[t] = "f2" /\ (IF slotE THEN Goto(t, "f3") ELSE Goto(t, "ret")) /\ UNCHANGED <<slotN, slotE, slotC, ip, got, hist, clock>>
+F3(t) == /\ pc[t] = "f3" /\ (IF slotC THEN Goto(t, "fu1") ELSE Goto(t, "ret")) /\ UNCHANGED <<slotN, slotE, slotC, ip, got, hist, clock>>
+FU1(t) == /\ pc[t] = "fu1" /\ slotN' = FALSE /\ Goto(t, "fu2") /\ UNCHANGED <<slotE, slotC, ip, got, hist, clock>>
+FU2(t) == /\ pc[t] = "fu2" /\ slotE' = FALSE /\ Goto(t, "fu3") /\ UNCHANGED <<slotN, slotC, ip, got, hist, clock>>
+FU3(t) == /\ pc[t] = "fu3" /\ slotC' = FALSE /\ Goto(t, "f1") /\ UNCHANGED <<slotN, slotE, ip, got, hist, clock>>
 Ret(t) == /\ pc[t] = "ret" /\ Log("ret:" \o Cur(t), t) /\ Done(t) /\ UNCHANGED <<slotN, slotE, slotC, got, clock>>
 
-Step(t) == Start(t) \/ ChkN(t) \/ ChkE(t) \/ ChkC(t) \/ N1(t) \/ N2(t) \/ E0(t) \/ E1(t) \/ E2(t) \/ E3(t) \/ C0(t) \/ C1(t) \/ C2(t) \/ C3(t) \/ U1(t) \/ U2(t) \/ U3(t) \/ Ret(t)
+Step(t) == Start(t) \/ ChkN(t) \/ ChkE(t) \/ ChkC(t) \/ N1(t) \/ N2(t) \/ E0(t) \/ E1(t) \/ E2(t) \/ E3(t) \/ C0(t) \/ C1(t) \/ C2(t) \/ C3(t) \/ U1(t) \/ U2(t) \/ U3(t) \/ F1(t) \/ F2(t) \/ F3(t) \/ FU1(t) \/ FU2(t) \/ FU3(t) \/ Ret(t)
 AllDone == \A t \in Threads : pc[t] = "idle" /\ ip[t] > Len(Scripts[t])
 Next == ((\E t \in Threads : Step(t)) /\ UNCHANGED Scripts) \/ (AllDone /\ UNCHANGED vars)
 Spec == Init /\ [][Next]_vars /\ WF_vars(Next)
